@@ -78,6 +78,7 @@ def classified : List (String × String × String) := [
   ("src/common/routing_table.rs::closest::slice#1", "modelled", "RoutingTable.closest: upper bound min(K, len)"),
   ("src/common/routing_table.rs::increment_responders_stats::narrow#1", "modelled-later", "usize counters (C20)"),
   ("src/common/routing_table.rs::increment_responders_stats::narrow#2", "modelled-later", "usize counters (C20)"),
+  ("src/common/routing_table.rs::increment_dht_size_estimate::narrow#1", "modelled-later", "usize counters (C20)"),
   ("src/common/routing_table.rs::decrement_dht_size_estimate::narrow#1", "modelled-later", "usize counter decrement (C20: never underflows)"),
   ("src/common/routing_table.rs::decrement_responders_stats::narrow#1", "modelled-later", "usize counter decrements (C20: never underflow)"),
   ("src/common/routing_table.rs::decrement_responders_stats::narrow#2", "modelled-later", "usize counter decrements (C20: never underflow)"),
@@ -87,7 +88,6 @@ def classified : List (String × String × String) := [
   ("src/common/routing_table.rs::add::index#1", "modelled", "KBucket::add: index from position() / bucket known to be full (kbucketAdd_cases)"),
   ("src/common/signed_announce.rs::system_time::expect#1", "external", "system clock before the unix epoch"),
   ("src/core.rs::new::expect#1", "unreachable", "NonZeroUsize::new(1000)"),
-  ("src/core.rs::update_address_votes_from_iterative_query::expect#1", "unreachable", "public_address was assigned Some on the line above"),
   ("src/core.rs::supports_signed_peers::slice#1", "unreachable", "fixed ranges of 4-byte arrays"),
   ("src/core.rs::supports_signed_peers::slice#2", "unreachable", "fixed ranges of 4-byte arrays"),
   ("src/core.rs::supports_signed_peers::slice#3", "unreachable", "fixed ranges of 4-byte arrays"),
